@@ -61,6 +61,11 @@ CHECKS = {
         technique="Hypothesis-generated state-aware command histories on a simulated network, compared step by step with a sequential reference model (model-based testing)",
         text="Abstract programs are concretised against the model state (so that deep states are reached: logins, listeners, existing files, REST->transfer, RNFR->RNTO) and executed one command at a time against the real server on memory/PathIO/AsyncPathIO backends, IPv4/IPv6, 3 block sizes, generated network tapes; reply count/order/codes, 257 text, data bytes, listing names, session liveness and the whole backend tree are compared with the model after every command; four probes at the end reveal hidden state (restart offset, pending rename, cwd).",
         note="Trusted: reference model vlib/ftpmodel.py (written from the RFCs and the property texts; points the texts leave open are not judged and are counted), simnet. Found and fixed 5 defects (KNOWN_FINDINGS)."),
+    "C16": dict(
+        category="fault_enumeration", design_ref="3/C16",
+        technique="enumeration of stall position x all 8 None/value combinations of the three timeouts in exact virtual time on a simulated network (plus Hypothesis-drawn values); oracle = equality with the earliest applicable bound + resource ledger",
+        text="The peer goes silent after its j-th command (every j of several scripted sessions, incl. before login), never makes the data connection of a RETR/STOR/APPE/LIST/MLSD, stops reading a 300 KB download after i bytes (TCP back pressure modelled by simnet: the server's write buffer fills and drain() blocks), stops sending an upload after i bytes, or sends a command every idle_timeout - epsilon. Because the harness owns the clock the bounds are checked as equalities (20 ms tolerance): release exactly at last command + idle_timeout or blocked I/O start + socket_timeout, 425 exactly at 150 + wait_future_timeout and PWD works afterwards, nothing at all released within 1000 s when the relevant timeouts are None, never dropped while commands keep arriving; after each release the C12 ledger must be empty.",
+        note="Trusted: simnet flow control model (high/low water marks, pause_reading). Ties between two timers are not judged. Mutants caught: read/write timeouts swapped in StreamIO, idle timeout applied to the data stream, wait_future_timeout doubled."),
     "C18": dict(
         category="exploration", design_ref="3/C18",
         technique="differential testing: Hypothesis command histories replayed on the three backends (reply class, bytes, tree after every command); generated backend-API op sequences on PathIO vs AsyncPathIO",
